@@ -69,6 +69,7 @@ type GateCM struct {
 	entered   map[Tag]struct{}
 	excess    []Excess
 	jitter    func() time.Duration
+	parkPlain map[string]bool // untagged methods that park on the gate as well
 }
 
 var _ syncer.ChainManager = (*GateCM)(nil)
@@ -98,6 +99,23 @@ func (g *GateCM) SetJitter(fn func() time.Duration) {
 	g.jitter = fn
 	g.mu.Unlock()
 }
+
+// ParkMethods makes untagged calls of the named methods (e.g. AddBlocks,
+// AddValidatedV2Blocks: the calls of the block-download machinery) park while
+// the gate is shut.
+func (g *GateCM) ParkMethods(methods ...string) {
+	g.mu.Lock()
+	g.parkPlain = map[string]bool{}
+	for _, m := range methods {
+		g.parkPlain[m] = true
+	}
+	g.mu.Unlock()
+}
+
+// ReleaseTag lets the parked handler of one request go while the gate stays shut.
+func (g *GateCM) ReleaseTag(t Tag) bool { return g.G.ReleaseKey(tagKey(t)) }
+
+func tagKey(t Tag) string { return fmt.Sprintf("%d/%d/%d", t.Peer, t.Burst, t.Req) }
 
 // RegisterPeer binds an attacker index to the subnet key the monitor computed
 // for its source address.
@@ -170,7 +188,7 @@ func (g *GateCM) tagged(t Tag, method string) (exit func()) {
 	g.entered[t] = struct{}{}
 	g.mu.Unlock()
 
-	done := g.G.Through(method+":tagged", true)
+	done := g.G.ThroughKey(method+":tagged", tagKey(t), true)
 	return func() {
 		// leave the per-peer / per-subnet books before the handler can go on
 		// to release its slots, so the observed count never exceeds the true
@@ -186,8 +204,9 @@ func (g *GateCM) tagged(t Tag, method string) (exit func()) {
 func (g *GateCM) plain(method string) (exit func()) {
 	g.mu.Lock()
 	j := g.jitter
+	park := g.parkPlain[method]
 	g.mu.Unlock()
-	done := g.G.Through(method, false)
+	done := g.G.Through(method, park)
 	if j != nil {
 		if d := j(); d > 0 {
 			time.Sleep(d)
